@@ -47,11 +47,11 @@ HeaderSets == { {}, {"forwarded"}, {"x-forwarded-for"}, {"x-forwarded-for", "x-f
                 {"bogus"}, {"x-forwarded-for", "x-forwarded"}, {"forwarded", "x-forwarded-by"} }
 
 Space == [present : SUBSET {"listen", "host", "port", "sockets", "unix_socket"},
-          tp : {"none", "addr", "star"},
+          tp : {"none", "addr", "star", "empty", "null"},      \* "empty" / "null": trusted_proxy given as '' / None - both mean no trusted proxy
           tpcount : {"unset", "set"},
           tph : HeaderSets,
           unknown : BOOLEAN,
-          socks : {"empty", "inet", "inet6", "unix", "mixed", "dgram", "two_inet"}]
+          socks : {"empty", "inet", "inet6", "unix", "mixed", "dgram", "two_inet", "seqpacket", "raw_like"}]
 
 Sensible(c) == ("sockets" \in c.present) \/ c.socks = "empty"
 
@@ -65,12 +65,12 @@ Refused(c) ==
      \/ "sockets" \in p /\ "unix_socket" \in p
      \/ "unix_socket" \in p /\ hp
      \/ "unix_socket" \in p /\ "listen" \in p
-     \/ c.tpcount = "set" /\ c.tp = "none"
-     \/ c.tph # {} /\ c.tp = "none"
+     \/ c.tpcount = "set" /\ c.tp \in {"none", "empty", "null"}
+     \/ c.tph # {} /\ c.tp \in {"none", "empty", "null"}
      \/ kinds \ Kinds # {}
      \/ "forwarded" \in kinds /\ kinds \ {"forwarded"} # {}
      \/ c.unknown
-     \/ c.socks \in {"mixed", "dgram"}
+     \/ c.socks \in {"mixed", "dgram", "seqpacket", "raw_like"}      \* only stream sockets of one family
 
 -----------------------------------------------------------------------------
 (* documented casts: <<option, raw text, expected setting as JSON text>>      *)
